@@ -201,13 +201,14 @@ def _monitor_error(label, where):
         emit({"t": "monitor_error", "monitor": label, "where": where, "trace": traceback.format_exc()[-1500:]})
 
 
+IN_STORM = [False]        # stress.fault_storm: deliberately rejected calls; only monitors created with storm=True observe them
 MONITORS_OFF = [False]    # stress.py: monitors keep per-call state that is not thread-safe; they are inert while threads run
 
 
 class Monitor(object):
     """Post-condition wrapper. The condition observes; it never alters the call."""
 
-    def __init__(self, owner, name, post=None, pre=None, label=None):
+    def __init__(self, owner, name, post=None, pre=None, label=None, storm=False):
         self.owner = owner
         self.name = name
         self.label = label or name
@@ -216,6 +217,7 @@ class Monitor(object):
         self.pre = pre
         self.depth = 0
         self.enabled = True
+        self.storm = storm
 
     def install(self, also=()):
         mon = self
@@ -229,7 +231,7 @@ class Monitor(object):
             fn = raw
 
         def wrapper(*a, **k):
-            if not mon.enabled or MONITORS_OFF[0]:
+            if not mon.enabled or MONITORS_OFF[0] or (IN_STORM[0] and not mon.storm):
                 return fn(*a, **k)
             count("calls:" + mon.label)
             snap = None
